@@ -17,12 +17,13 @@ import (
 
 // Step is one environment action of a scenario (Sentinel.tla: Rec(op, x, y, z) with the anchor at/an).
 type Step struct {
-	Op string `json:"op"` // role crash restart scrash srestart sview pub | driver-only: sfail settle
-	X  string `json:"x"`
-	Y  string `json:"y"`
-	Z  string `json:"z"`
-	At string `json:"at"` // role answer swapbegin idle now
-	An string `json:"an"`
+	Op  string   `json:"op"` // role crash restart scrash srestart sview pub | driver-only: sfail settle
+	X   string   `json:"x"`
+	Y   string   `json:"y"`
+	Z   string   `json:"z"`
+	Set []string `json:"set"` // pub: parts of the master-set name the event is about (empty: the client's own)
+	At  string   `json:"at"`  // role answer swapbegin idle now
+	An  string   `json:"an"`
 }
 
 type Scenario struct {
@@ -202,7 +203,7 @@ func (r *runner) traffic() {
 // apply performs one environment action.
 func (r *runner) apply(s Step) {
 	w := r.w
-	w.ev("Env", "ch", s.Op, "s", s.X, "a", s.Y, "ans", s.Z)
+	w.ev("Env", "ch", s.Op, "s", s.X, "a", s.Y, "ans", s.Z, "set", strings.Join(s.Set, ""))
 	switch s.Op {
 	case "role":
 		w.nodes[s.X].srv.SetRole(s.Y)
@@ -215,7 +216,7 @@ func (r *runner) apply(s Step) {
 	case "sfail":
 		w.setFail(s.X, s.Y)
 	case "pub":
-		w.publish(s.X, s.Y, s.Z)
+		w.publish(s.X, s.Y, s.Z, strings.Join(s.Set, ""))
 	case "settle":
 		w.waitQuiet(6*r.scale, 150*r.scale)
 	case "slowconn": // from now on connection setup to node X takes Y time units
@@ -228,7 +229,7 @@ func (r *runner) apply(s Step) {
 		w.nodes[s.X].slowRole.Store(int64(time.Duration(u) * r.scale))
 	case "storm": // a burst of replica events, as a failover with many replicas produces
 		for i := 0; i < 24; i++ {
-			w.publish(s.X, []string{"sdown", "slave", "-sdown", "reboots"}[i%4], fmt.Sprintf("n%d", 2+i%2))
+			w.publish(s.X, []string{"sdown", "slave", "-sdown", "reboots"}[i%4], fmt.Sprintf("n%d", 2+i%2), "")
 		}
 	}
 }
@@ -248,7 +249,9 @@ func (r *runner) step(s Step) {
 			}
 		}
 	case "idle":
-		deadline := time.Now().Add(150 * r.scale)
+		// (the model is at rest only after the first refresh, i.e. when NewClient has returned; on a loaded machine
+		// that can take a while)
+		deadline := time.Now().Add(1000 * r.scale)
 		for r.client.Load() == nil && time.Now().Before(deadline) {
 			time.Sleep(r.scale)
 		}
@@ -312,12 +315,12 @@ func (r *runner) heal(final string) (ok bool, detail string) {
 			oip, oport := hostPort(w.addrOf(oldm))
 			w.setView(name, final, "others")
 			w.ev("Env", "ch", "pub", "s", name, "a", "switch", "ans", final)
-			w.ev("Push", "s", name, "ch", "switch", "a", final)
+			w.ev("Push", "s", name, "ch", "switch", "a", final, "set", masterSet)
 			w.sents[name].srv.Do("PUBLISH", "+switch-master", fmt.Sprintf("%s %s %s %s %s", masterSet, oip, oport, ip, port))
 			if w.mode != "m" {
 				for n := range w.nodes {
 					if n != final {
-						w.publish(name, "slave", n)
+						w.publish(name, "slave", n, "")
 					}
 				}
 			}
@@ -427,9 +430,23 @@ func canonical() []Scenario {
 			{Op: "sview", X: "s1", Y: to, Z: "others"}, {Op: "pub", X: "s1", Y: "switch", Z: to},
 			{Op: "sview", X: "s2", Y: to, Z: "others"}, {Op: "pub", X: "s2", Y: "switch", Z: to}}
 	}
+	// events of the other master sets the same sentinels monitor (names of SentinelMC.tla: NamesAll \ {Own}), each
+	// naming a node that honestly answers ROLE master and that no sentinel reported as master of the client's set
+	foreign := func() []Step {
+		st := []Step{{Op: "role", X: "n3", Y: "master", At: "idle"}}
+		for _, name := range foreignSets {
+			st = append(st, Step{Op: "pub", X: "s1", Y: "switch", Z: "n3", Set: name}, Step{Op: "pub", X: "s2", Y: "switch", Z: "n3", Set: name})
+		}
+		st = append(st, Step{Op: "settle"}, Step{Op: "role", X: "n2", Y: "master", At: "idle"})
+		for _, name := range foreignSets {
+			st = append(st, Step{Op: "pub", X: "s1", Y: "rebootm", Z: "n2", Set: name}, Step{Op: "pub", X: "s2", Y: "rebootm", Z: "n2", Set: name})
+		}
+		return append(st, Step{Op: "settle"})
+	}
 	var out []Scenario
 	for _, m := range []string{"m", "r", "b"} {
 		out = append(out,
+			Scenario{Name: "foreign-master-sets", Mode: m, Steps: foreign(), Final: "n1"},
 			Scenario{Name: "failover", Mode: m, Steps: sw("n2"), Final: "n3"},
 			Scenario{Name: "stale-first-sentinel", Mode: m, Steps: []Step{{Op: "sview", X: "s1", Y: "n2", Z: "others"}}, Final: "n1"},
 			Scenario{Name: "both-sentinels-stale-then-learn", Mode: m, Steps: []Step{{Op: "sview", X: "s1", Y: "n2", Z: "others"},
@@ -476,6 +493,9 @@ func canonical() []Scenario {
 	return out
 }
 
+// master-set names other than the client's ("mymaster"), as sequences of name parts (SentinelMC.tla)
+var foreignSets = [][]string{{"my", "master", "-sessions"}, {"my"}, {"x-", "my", "master"}, {"MY", "MASTER"}, {"other", "master"}}
+
 // randomScenario draws steps from the vocabulary of Sentinel.tla plus what the model abstracts away
 // (sentinel failure modes, other events), with anchors.
 func randomScenario(rng *rand.Rand, mode string, i int) Scenario {
@@ -500,6 +520,9 @@ func randomScenario(rng *rand.Rand, mode string, i int) Scenario {
 			s = Step{Op: "sview", X: sents[rng.Intn(2)], Y: append(nodes, "n0", "")[rng.Intn(5)], Z: []string{"others", "others", "none", "all"}[rng.Intn(4)]}
 		case 8, 9:
 			s = Step{Op: "pub", X: sents[rng.Intn(2)], Y: []string{"switch", "switch", "rebootm", "slave", "sdown", "-sdown", "reboots", "sentinel", "othermaster"}[rng.Intn(9)], Z: nodes[rng.Intn(3)]}
+			if rng.Intn(4) == 0 {
+				s.Set = foreignSets[rng.Intn(len(foreignSets))]
+			}
 		case 10:
 			s = Step{Op: "sfail", X: sents[rng.Intn(2)], Y: []string{"", "err", "cut"}[rng.Intn(3)]}
 		case 11:
